@@ -6,14 +6,14 @@ calls the public drange (every call under a CPU-time watchdog: the property dema
 encodes the list as [[ordinal, second, microsecond], ...] (or the exception class, or "timeout")
 and compares it with == against what TLC printed (S2C) or hands it to spec/Trace_Drange.tla (C2S).
 """
-import datetime, json, os, signal, time
+import datetime, hashlib, json, os, signal, time
 
-# CPU seconds (ITIMER_VIRTUAL) after which a call counts as not terminating.  A correct call takes milliseconds; the slowest
-# *terminating* call of today's code is a wrong-direction '-1s' between endpoints less than a day apart: dateutil walks back
-# second by second to the start of the month before the ValueError comes out (<= 2.7 million steps, 13 s measured).
-WATCHDOG_S = float(os.environ.get('VERIF_C10_WATCHDOG', 40))
+# CPU seconds (ITIMER_VIRTUAL) after which a call counts as not terminating.  A correct call takes milliseconds.  (Before the
+# direction test of drange was repaired, a wrong-direction '-1s' between endpoints less than a day apart took up to 13 s to come
+# back with its accidental ValueError; VERIF_C10_WATCHDOG widens the limit when such a tree is to be examined.)
+WATCHDOG_S = float(os.environ.get('VERIF_C10_WATCHDOG', 10))
 MAX_TIMEOUTS = 3        # the replay stops after that many calls that did not terminate, or when the calls that took more than 1 s
-SLOW_BUDGET_S = {'quick': 150.0, 'thorough': 900.0}     # have used up this much CPU: such a tree is failing or hopelessly slow
+SLOW_BUDGET_S = {'quick': 60.0, 'thorough': 600.0}      # have used up this much CPU: such a tree is failing or hopelessly slow
 MAXLEN = 300000
 FIRST, LAST = datetime.datetime(1900, 1, 1).toordinal(), datetime.datetime(2299, 12, 31).toordinal()
 MONTH = ('m', 'q', 'y')
@@ -27,7 +27,7 @@ class GaveUp(Exception):
     """too many calls ran into the watchdog: stop calling, judge what was recorded"""
 
 
-_timeouts = [0, 0.0, 150.0]      # calls that timed out, CPU seconds spent in calls slower than 1 s, budget for the latter
+_timeouts = [0, 0.0, 60.0]      # calls that timed out, CPU seconds spent in calls slower than 1 s, budget for the latter
 
 
 def exhausted():
@@ -215,7 +215,9 @@ def forms_for(bump, k):
 
 def s2c(ctx, cases):
     suspects, gave_up = [], False
-    cases = sorted(cases, key=lambda c: json.dumps([c['t0'], c['t1'], c['bump']]))      # TLC prints in no particular order
+    # TLC prints in no particular order: fix one, and one that mixes the families (if a tree is so slow that the replay is cut
+    # short, every family has been sampled by then)
+    cases = sorted(cases, key=lambda c: hashlib.sha1(json.dumps([c['t0'], c['t1'], c['bump']]).encode()).hexdigest())
     for k, c in enumerate(cases):
         try:
             for form in forms_for(c['bump'], k):
@@ -246,7 +248,7 @@ def s2c_histories(ctx, hists):
     """two calls over one window; the list the first call returned is changed in place in between.  Each call must
     return what TLC printed for it - results are history independent"""
     suspects = []
-    hists = sorted(hists, key=lambda h: json.dumps(h))
+    hists = sorted(hists, key=lambda h: hashlib.sha1(json.dumps(h, sort_keys=True).encode()).hexdigest())
     for k, h in enumerate(hists):
         first, mut, second = h['hist']
         try:
@@ -481,7 +483,7 @@ def run(ctx):
     ctx.exhaustive = False
     ctx.assumptions += [
         'every real drange call runs under a CPU-time watchdog (ITIMER_VIRTUAL, %.0f s, env VERIF_C10_WATCHDOG); a timeout is reported as a violation of termination. '
-        'Today a wrong-direction negative h/n/s bump between endpoints less than a day apart is rejected only after dateutil has walked back to the start of the month (up to 13 s of CPU for -1s): it terminates with ValueError and is accepted' % WATCHDOG_S,
+        'The replay is cut short after 3 timeouts or when calls slower than 1 s have used 60 s (quick) / 600 s (thorough) of CPU' % WATCHDOG_S,
         'domain as in the quantifier (Drange!CaseInDomain): int and business-day bumps with endpoints a whole number of days apart; month-based '
         'units with midnight endpoints, t0 on a day <= 28 and only whole-day units beside them in compound tenors; zero bumps excluded; '
         'compound tenors of the random driver have parts of one sign, or a dominating leading month/year part, so that every step moves the same way',
